@@ -30,6 +30,8 @@ type c17cfg struct {
 	closeAfterQueries bool // closers start only after the callers returned (e.g. while a dropped connection is being replaced)
 	removeHost        bool // a thread removes a host (as a refresh would) while others query
 	dialFault         bool
+	upTwice           bool // a host without a pool (reported down) is brought back by two concurrent triggers (UP event and reconnect tick)
+	refill3           bool // two of three connections are lost; the replacing handshakes may be dropped or slow (free choices) while queries keep arriving
 	closeErr          bool
 	fates             []string
 	t                 [2]int
@@ -63,10 +65,28 @@ func (c *c17cfg) body() {
 		}
 		return vnode.Reply{Msg: vnode.TextRows("t", "ok")}
 	}
+	hsLeft := 2      // ... for the first two replacement connections
+	hsFates := false // refill3: the handshake of a new connection may be dropped or slow (free choice per connection)
+	wrapHS := func(h vnode.Handler) vnode.Handler {
+		return func(n *vnode.Node, sc *vnode.ServerConn, rec *vnode.ReqRec) vnode.Reply {
+			if _, ok := rec.Req.Msg.(*frame.Startup); ok && hsFates && !settling && hsLeft > 0 {
+				hsLeft--
+				switch vs.Choose(3, vs.Free) {
+				case 1:
+					return vnode.Reply{Drop: true}
+				case 2:
+					r := h(n, sc, rec)
+					r.Delay = 250 * time.Millisecond
+					return r
+				}
+			}
+			return h(n, sc, rec)
+		}
+	}
 	for _, ip := range ips {
 		sn := &sysnode{cl: cl, view: func() *cview { return view }, self: ip, next: qhandler}
 		sysnodes = append(sysnodes, sn)
-		cl.add(ip, sn.wrapRegister(sn.handler()))
+		cl.add(ip, wrapHS(sn.wrapRegister(sn.handler())))
 	}
 	maxPool := 0
 	var sess *gocql.Session
@@ -92,6 +112,10 @@ func (c *c17cfg) body() {
 	cfg.Timeout = 100 * time.Millisecond
 	cfg.ConnectTimeout = 100 * time.Millisecond
 	cfg.NumConns = c.numConns
+	if c.refill3 {
+		cfg.ConnectTimeout = 300 * time.Millisecond
+		cfg.ReconnectionPolicy = &gocql.ConstantReconnectionPolicy{MaxRetries: 1, Interval: 10 * time.Millisecond}
+	}
 	cfg.ReconnectInterval = 0
 	cfg.WriteCoalesceWaitTime = 0
 	cfg.HostDialer = cl.dialer()
@@ -127,6 +151,12 @@ func (c *c17cfg) body() {
 	if c.removeHost {
 		n++
 	}
+	if c.upTwice {
+		n += 2
+	}
+	if c.refill3 {
+		n++
+	}
 	done := make(chan res, n+2)
 	got0 := 0
 	var sig0 []string
@@ -135,6 +165,37 @@ func (c *c17cfg) body() {
 		vs.GoNamed(fmt.Sprintf("caller%d", i), func() {
 			err := sess.Query("QUERYX 'x'").WithContext(context.Background()).Exec()
 			vs.Send(done, res{fmt.Sprintf("q%d", i), err})
+		})
+	}
+	if c.upTwice {
+		vs.Quiet(true)
+		gocql.VerifMarkHostDown(sess, ips[len(ips)-1])
+		vs.WaitQuiescent()
+		vs.Quiet(false)
+		for i := 0; i < 2; i++ {
+			i := i
+			vs.GoNamed(fmt.Sprintf("up%d", i), func() {
+				gocql.VerifStartPoolFill(sess, ips[len(ips)-1])
+				vs.Send(done, res{fmt.Sprintf("up%d", i), nil})
+			})
+		}
+	}
+	if c.refill3 {
+		// two of the three connections of the pool are lost at once; queries keep arriving while they are replaced
+		hsFates = true
+		lost := 0
+		for _, sc := range cl.nodes[ips[0]].Conns {
+			if lost < 2 && !sc.C.Closed() {
+				sc.C.Close()
+				lost++
+			}
+		}
+		vs.GoNamed("ticker", func() {
+			for i := 0; i < 7; i++ {
+				sess.Query("QUERYX 'tick'").WithContext(context.Background()).Exec()
+				vs.Sleep(45 * time.Millisecond)
+			}
+			vs.Send(done, res{"ticker", nil})
 		})
 	}
 	if c.removeHost && c.closeAfterQueries {
@@ -185,6 +246,7 @@ func (c *c17cfg) body() {
 	// "a connection reported closed is removed from its pool and replaced": replacement is triggered by the
 	// connection's error callback or, if a fill was already running then, by the next Pick. Give every host
 	// one more (answered) query as that trigger, then let the fills finish.
+	_, dBefore, _ := vs.Deviations()
 	if c.closers == 0 && !c.removeHost {
 		settling = true
 		dialing = false
@@ -201,8 +263,24 @@ func (c *c17cfg) body() {
 		if p.ClosedConn > 0 && !p.PoolClosed {
 			vs.Failf("c17:closed-conn-left-in-pool", "pool of %s still holds %d closed connection(s) at quiescence", p.Addr, p.ClosedConn)
 		}
-		if c.closers == 0 && !c.removeHost && !p.PoolClosed && p.Conns != p.Size {
+		// (a timer fired ahead of runnable threads during the settling phase can time a replacement dial out: not counted)
+		if _, dAfter, _ := vs.Deviations(); c.closers == 0 && !c.removeHost && !p.PoolClosed && p.Conns != p.Size && dAfter == dBefore {
 			vs.Failf("c17:pool-not-refilled", "pool of %s has %d of %d connections at quiescence, after a further query on every host and with every later dial succeeding", p.Addr, p.Conns, p.Size)
+		}
+	}
+	for _, ip := range ips {
+		open := 0
+		for _, cc := range cl.clients {
+			if strings.HasPrefix(cc.Name, ip+"#") && !cc.Closed() {
+				open++
+			}
+		}
+		lim := c.numConns
+		if c.control {
+			lim++
+		}
+		if open > lim {
+			vs.Failf("c17:host-over-capacity", "%d transports to %s are open at quiescence; configured connections per host %d (control connection: %v)", open, ip, c.numConns, c.control)
 		}
 	}
 	// a final Close (also the second/third Close in the closers scenarios) must return
@@ -249,6 +327,8 @@ func main() {
 		{name: "pool1-drop-refill", hosts: 1, numConns: 1, callers: 2, fates: []string{"drop", "reply"}, t: [2]int{2, 3}},
 		{name: "pool2-drop-refill", hosts: 2, numConns: 2, callers: 2, fates: []string{"drop", "reply"}, t: [2]int{1, 2}},
 		{name: "pool3-dialfault", hosts: 1, numConns: 3, callers: 2, dialFault: true, fates: rd, t: [2]int{2, 3}},
+		{name: "host-up-twice-concurrently", hosts: 1, numConns: 2, upTwice: true, fates: ok, t: [2]int{2, 3}},
+		{name: "pool3-two-lost-handshake-fates", hosts: 1, numConns: 3, refill3: true, fates: ok, t: [2]int{1, 2}},
 		{name: "pool2-closeerr-close", hosts: 1, numConns: 2, callers: 1, closers: 1, closeErr: true, fates: rd, t: [2]int{2, 3}},
 		{name: "close-during-refill-closeerr", hosts: 1, numConns: 2, callers: 1, closers: 1, closeErr: true, closeAfterQueries: true, fates: []string{"drop", "reply"}, t: [2]int{2, 3}},
 		{name: "close-during-refill", hosts: 1, numConns: 2, callers: 1, closers: 1, closeAfterQueries: true, dialFault: true, fates: []string{"drop", "reply"}, t: [2]int{2, 3}},
